@@ -190,6 +190,8 @@ type Exec struct {
 	negateFilter bool
 	lockSeq int
 	parentClosures map[int]*Contract
+	parentContract *Contract // contract of the enclosing function when a closure is verified
+	sendSeq        int
 	invLocs map[string][]string
 	refAx   map[string]bool
 	known   map[string]bool
@@ -1273,8 +1275,8 @@ func (e *Exec) merge(a, b *State) *State {
 				other = bv(tFalse)
 			case strings.HasPrefix(s, "ncalls:"):
 				other = iv("0")
-			case strings.HasPrefix(s, "sent:"):
-				other = iv("0") // nothing sent on the other path
+			case strings.HasPrefix(s, "sent:"), strings.HasPrefix(s, "recvd:"):
+				other = iv("0") // nothing sent / received on the other path
 			case strings.HasPrefix(s, "closed:"):
 				other = bv(tFalse) // not closed on the other path
 			default:
@@ -1401,5 +1403,5 @@ func isTimeType(t types.Type) bool {
 
 func isEventKey(s string) bool {
 	return strings.HasPrefix(s, "called:") || strings.HasPrefix(s, "ncalls:") || strings.HasPrefix(s, "ret:") || strings.HasPrefix(s, "arg:") ||
-		strings.HasPrefix(s, "sent:") || strings.HasPrefix(s, "closed:")
+		strings.HasPrefix(s, "sent:") || strings.HasPrefix(s, "closed:") || strings.HasPrefix(s, "recvd:")
 }
